@@ -23,6 +23,7 @@ def main():
     ap.add_argument("--tier", default="quick")
     ap.add_argument("--scale", default=None)
     ap.add_argument("--repo", default="/repo")
+    ap.add_argument("--sub", nargs="*", help="run only these sub-checks")
     ap.add_argument("--tests", action="store_true", help="also run the pinned repository test-suite on the mutated copy")
     a = ap.parse_args()
     scratch = tempfile.mkdtemp(prefix="audit_", dir="/tmp")
@@ -49,11 +50,11 @@ def main():
             if a.scale:
                 env["VERIF_BUDGET_SCALE"] = a.scale
             t0 = time.time()
-            p = subprocess.run([os.path.join(HERE, "run.py"), cid, "--tier", a.tier], env=env,
+            p = subprocess.run([os.path.join(HERE, "run.py"), cid, "--tier", a.tier] + (["--sub"] + a.sub if a.sub else []), env=env,
                                capture_output=True, text=True, cwd=HERE)
             viol = [l for l in p.stdout.splitlines() if l.startswith("VIOLATION")]
             status = {0: "MISSED", 1: "DETECTED", 2: "HARNESS-ERROR"}.get(p.returncode, f"rc={p.returncode}")
-            print(f"{status} {os.path.basename(a.diff)} {cid} {time.time()-t0:.0f}s  " +
+            print(f"{status} {os.path.basename(a.diff)} {cid}{'[' + ','.join(a.sub) + ']' if a.sub else ''} {time.time()-t0:.0f}s  " +
                   (viol[0].split('#', 1)[-1].strip()[:160] if viol else ""))
             if p.returncode == 2:
                 print(p.stdout[-1500:], p.stderr[-1500:])
